@@ -2,7 +2,7 @@
 path in a `while` loop) and R33 (no state kept from one call to the next: every property is quantified over all
 inputs *and histories*, so a result must be a function of the arguments).  All have expected count zero on a healthy
 tree; their positive examples are the self-test variants of C18/C19 (R31), C02 (R22), C10/C12 (R33), C11 (R36) and
-C13 (R37 undefined name, R38 implicit None return)."""
+C13 (R37 undefined name, R38 implicit None return) and C10 (R40 argument selection)."""
 
 from __future__ import annotations
 
@@ -102,6 +102,28 @@ def cross_call_state(m) -> list[tuple]:
             elif tgt in defaults and not any(isinstance(x, ast.Name) and x.id == tgt and isinstance(x.ctx, ast.Store) for x in ast.walk(f.node)):
                 out.append((f, n, tgt, f"`{ast.unparse(n)[:50]}` writes into the mutable default of `{tgt}`, which is shared by all calls"))
     return out
+
+
+OPPOSITES = [
+    ({"row", "rows", "height"}, {"col", "cols", "column", "columns", "width"}),
+    ({"lower", "lo", "lb"}, {"upper", "hi", "ub"}),
+    ({"source", "src", "start", "tail"}, {"sink", "target", "dst", "end", "head", "goal"}),
+    ({"left"}, {"right"}),
+    ({"first"}, {"second"}),
+    ({"min"}, {"max"}),
+    ({"minimize"}, {"maximize"}),
+]
+
+
+def _opposite(arg_name: str, param_name: str) -> bool:
+    import re
+
+    ta = {t for t in re.split(r"[_\d]+", arg_name.lower()) if t}
+    tp = {t for t in re.split(r"[_\d]+", param_name.lower()) if t}
+    for x, y in OPPOSITES:
+        if (ta & x and tp & y and not (ta & y or tp & x)) or (ta & y and tp & x and not (ta & x or tp & y)):
+            return True
+    return False
 
 
 def infrastructure(ctx: Ctx, oid: str):
@@ -242,6 +264,26 @@ def generic_sweeps(ctx: Ctx, stutter: bool = True, skip_stutter_modules: tuple =
                 ctx.ob(g + "6", "R38 NO-IMPLICIT-NONE", f, "a function that returns values returns one on every path", False, "some path runs off the end of the function and returns None where callers expect a value", node=f.node)
     ctx.ob(g + "5", "R37 UNDEFINED-NAME", None, "every name read in the anchor files is bound somewhere", n_undef == 0, "", rel=mods[0].rel, fname="<anchor files>")
     ctx.ob(g + "6", "R38 NO-IMPLICIT-NONE", None, "no value-returning function of the anchor files can run off its end", n_none == 0, "", rel=mods[0].rel, fname="<anchor files>")
+    # R40: an argument whose name says one thing handed to a parameter whose name says the opposite
+    n_sel = 0
+    for m in mods:
+        for q in sorted(m.funcs):
+            f = m.funcs[q]
+            for c in f.own_nodes():
+                if not isinstance(c, ast.Call):
+                    continue
+                callee = ctx.repo.resolve_call(f, c)
+                if callee is None:
+                    continue
+                params = [p_ for p_ in callee.params if p_ not in ("self", "cls")]
+                pairs = list(zip(c.args, params)) + [(k.value, k.arg) for k in c.keywords if k.arg]
+                for a, p_ in pairs:
+                    an = a.id if isinstance(a, ast.Name) else (a.attr if isinstance(a, ast.Attribute) else None)
+                    if an is None or not _opposite(an, p_):
+                        continue
+                    n_sel += 1
+                    ctx.ob(g + "8", "R40 ARGUMENT-SELECTION", f, f"`{an}` is not passed where `{callee.name}` expects `{p_}`", False, f"`{ast.unparse(c)[:70]}`: the argument's name and the parameter's name denote opposite things (rows/columns, lower/upper, source/target ...), which usually means two arguments were swapped", node=c)
+    ctx.ob(g + "8", "R40 ARGUMENT-SELECTION", None, "no call in the anchor files passes an argument to a parameter of the opposite meaning", n_sel == 0, "", rel=mods[0].rel, fname="<anchor files>")
     infrastructure(ctx, g + "7")
     validators_used(ctx, mods, g + "7")
     ctx.count("functions swept (R31/R22)", n_funcs)
